@@ -15,7 +15,7 @@ LEVEL_TEXT = ('for every operation of the fault-free trace and every applicable 
               'faulted trace (pairs); every run must terminate within 20x the fault-free length and end with the argument fully trashed (in any candidate) or untouched, exit status 0 iff '
               'trashed, pre-existing pairs unchanged')
 LEVEL_NOTE = 'faults are injected at Python os-call granularity with errnos from a per-syscall table; triples of faults and errnos outside the table are not covered'
-RULE = ('scenarios: kind {file, tree, symlink} x route {home cold, home warm, .Trash/uid, .Trash-uid, home fallback, home trash whose info is a regular file, home trash without info/, .Trash-uid + enabled fallback} + a directory that contains its only candidate trash directory (rename answers EINVAL by itself) + two arguments in one run x {file, tree} x {home warm, .Trash-uid}; level 1 = all ops x all applicable errnos + sticky faults on mutating '
+RULE = ('scenarios: kind {file, tree, symlink} x route {home cold, home warm, .Trash/uid, .Trash-uid, home fallback, home trash whose info is a regular file, home trash without info/, .Trash-uid + enabled fallback} + a payload without .trashinfo under the own name of the argument (it must survive every fault; a probe of that name answered ENOENT / ENOTDIR / ENAMETOOLONG is a dont-care) + a directory that contains its only candidate trash directory (rename answers EINVAL by itself) + two arguments in one run x {file, tree} x {home warm, .Trash-uid}; level 1 = all ops x all applicable errnos + sticky faults on mutating '
         'ops and on stat/lstat; level 2 quick = second fault on mutating ops with {EACCES, ENOSPC, EIO} for 4 scenarios, thorough = all ops x all errnos for 4 scenarios and the quick scope elsewhere; '
         'non-trivial = the fault was delivered and changed the trace; distinct = (route, faulted op(s), errno(s), outcome)')
 LEVEL2_SCOPE = {'quick': 'second fault on mutating operations with errno in {EACCES, ENOSPC, EIO} for 4 scenarios (file/home-cold, file/fallback, tree/.Trash-uid, link/.Trash/uid)',
